@@ -306,7 +306,12 @@ func runBridge(r Round) *outcome {
 	var src2Peer, src2Conn *vkit.BufConn
 	if lateAttach {
 		// step 1 has happened once the closers made Start return; step 2: late attachments
-		if pollUntilBlocked(3*time.Second, 20*time.Second, startReturned.Load) {
+		closersDone := func() bool {
+			rc.mu.Lock()
+			defer rc.mu.Unlock()
+			return len(rc.closers) == r.Closers && startReturned.Load()
+		}
+		if pollUntilBlocked(3*time.Second, 20*time.Second, closersDone) {
 			b.SetTargetConnection(tgtTC)
 			src2Peer, src2Conn = vkit.NewBufConnPair("10.2.0.3:3333", "10.0.0.1:8000")
 			src2Stream := stream.NewStreamProcessor(src2Conn, src2Conn, parent)
